@@ -1,5 +1,6 @@
 import PgVerif.Proofs.NDSound
 import PgVerif.Proofs.Chart
+import PgVerif.Proofs.SPPF
 /-!
 # C17 — with consume_input off, results parse sentence prefixes
 
@@ -7,8 +8,9 @@ import PgVerif.Proofs.Chart
 behaviour, whatever the LR driver model returns derives a prefix of the input
 ending at a token boundary. `C17_path_prefix_sound`: the same for every path of
 the nondeterministic automaton (every GSS path). `C17_prefix_oracle_correct`:
-the oracle for "some prefix is a sentence". GLR's completeness over all prefixes
-is compared with the complete SPPF of the Lean spec on the explored scope.
+the oracle for "some prefix is a sentence". `C17_reference_prefix_sppf_exact`: the
+reference SPPF over all sentence prefixes is exact. GLR's completeness over all
+prefixes is compared with that reference on the explored scope.
 -/
 namespace Pg
 
@@ -29,5 +31,11 @@ theorem C17_path_prefix_sound (g : Grammar) (T : Table) (inp : Input) (hw : T.wf
     (hs : NStep g T inp c (.done (.ok t e p))) : IsPrefixParseOf g inp t := by
   obtain ⟨e', h1, _⟩ := nd_sound hw c h t e p hs
   exact ⟨e', h1⟩
+
+/-- The reference SPPF of all sentence prefixes (`consume_input=False`) is exact. -/
+theorem C17_reference_prefix_sppf_exact (g : Grammar) (inp : Input) (hin : InputOK inp) (fuel : Nat)
+    (alts : List PAlt) (h : sppfAlts g inp fuel false = some alts) (a : PAlt) :
+    a ∈ alts ↔ Useful g inp false (a.A, a.i, a.j) ∧ PackedAlt g inp a :=
+  sppfAlts_correct hin fuel false alts h a
 
 end Pg
